@@ -1744,6 +1744,7 @@ def from_mps(mps: Mps) -> Tuple[BasisTree, TTNS, TTNO]:
     # o -> o -> o -> root (canonical center)
     basis = BasisTree.linear(mps.model.basis[::-1])
     ttns = TTNS(basis)
+    ttns.coeff = mps.coeff
     for i in range(len(mps)):
         node = ttns.node_list[::-1][i]
         node.tensor = mps[i].array
